@@ -4,6 +4,8 @@ import (
 	"context"
 	"encoding/json"
 	"fmt"
+	"os"
+	"runtime/debug"
 	"sort"
 	"strconv"
 	"strings"
@@ -73,6 +75,9 @@ type c17Scenario struct {
 }
 
 func (s c17Scenario) kind() string {
+	if !strings.HasPrefix(s.Op, "gc") {
+		return "rekey"
+	}
 	if strings.HasPrefix(s.Op, "gc") {
 		return "gc"
 	}
@@ -663,6 +668,13 @@ func c17Fact(n int) int {
 }
 
 func runC17(t *testing.T, rep *mc.Reporter) {
+	// every execution allocates a few MB of connection buffers while the live heap is a
+	// few MB of static tables: with the default GOGC the collector runs once per execution
+	gcp := 400
+	if v, err := strconv.Atoi(os.Getenv("VERIF_GOGC")); err == nil && v > 0 {
+		gcp = v
+	}
+	debug.SetGCPercent(gcp)
 	shard, nshards := mc.ShardOf()
 	tier := mc.Tier()
 	budget := &mc.Budget{Deadline: mc.DeadlineFromEnv()}
